@@ -1,6 +1,7 @@
 package main
 
 import (
+	"os"
 	"fmt"
 	"go/types"
 	"sort"
@@ -18,6 +19,10 @@ const (
 	revP         = "<revocation.Proof>"
 	pdNR         = "<gabi.ProofD>.NonRevocationProof"
 )
+
+// witRoots: the names under which the witness of a proof commitment is visible (the caller's object, the
+// per-proof copy, the same seen as a parameter of a helper).
+var witRoots = map[string]bool{"new:revocation.Witness": true, "<revocation.Witness>": true, "<revocation.witness>": true}
 
 func init() {
 	register("C11",
@@ -55,18 +60,62 @@ func init() {
 				if fn == nil {
 					return
 				}
-				nu := "new:revocation.Witness.SignedAccumulator.Accumulator.Nu"
+				// the witness object X the relation is tested for (the per-proof copy; in NewProofCommit itself or in a
+				// helper it hands the copy to): isTrue(X, X's accumulator Nu, key.N), bases over that Nu, secrets = X
+				witX := ""
 				mp(P, R, "C11.d", kNewPC+":relation", "commitments returned => isTrue(witness copy, its accumulator's Nu, key.N)", fn, AcceptNilErr(2), &MustPass{Match: func(a Atom) bool {
 					c, ok := callAtom(a, True, "revocation.(*proofStructure).isTrue")
-					return ok && desc(c.Call.Args[1]) == "new:revocation.Witness" && desc(c.Call.Args[2]) == nu && desc(c.Call.Args[3]) == pkD+".N"
-				}})
-				okBase := false
-				for _, s := range sinksOf(fn) {
-					if s.target == "new:revocation.Accumulator.Nu" && desc(s.val) == nu {
-						okBase = true
+					if !ok {
+						return false
 					}
+					// X: the per-proof copy (possibly produced by a helper); its accumulator is the caller's witness'
+					// accumulator (the copy is shallow), so Nu may be read through either
+					x := desc(c.Call.Args[1])
+					if !witRoots[descNN(c.Call.Args[1])] {
+						if os.Getenv("GABILINT_DEBUG") != "" {
+							fmt.Println("DEBUG witX", descNN(c.Call.Args[1]))
+						}
+						return false
+					}
+					nuD := desc(c.Call.Args[2])
+					okNu := nuD == x+".SignedAccumulator.Accumulator.Nu"
+					for r := range witRoots {
+						if nuD == r+".SignedAccumulator.Accumulator.Nu" {
+							okNu = true
+						}
+					}
+					if okNu && desc(c.Call.Args[3]) == pkD+".N" {
+						witX = x
+						return true
+					}
+					return false
+				}})
+				nuOf := func(d string) bool {
+					if d == witX+".SignedAccumulator.Accumulator.Nu" {
+						return true
+					}
+					for r := range witRoots {
+						if d == r+".SignedAccumulator.Accumulator.Nu" {
+							return true
+						}
+					}
+					return false
 				}
-				R.decide("C11.d", kNewPC+":same-nu", "the commitments are computed over that same Nu", okBase, "", P.Pos(fn.Pos()))
+				okBase, okSecrets := false, false
+				deepVisit(P, fn, 1, func(g *ssa.Function) {
+					for _, s := range sinksOf(g) {
+						if s.target == "new:revocation.Accumulator.Nu" && witX != "" && nuOf(desc(s.val)) {
+							okBase = true
+						}
+					}
+					for _, c := range callsIn(g) {
+						if isCallTo(c, "revocation.(*proofStructure).commitmentsFromSecrets") {
+							args := c.Common().Args
+							okSecrets = witX != "" && desc(args[len(args)-1]) == witX
+						}
+					}
+				})
+				R.decide("C11.d", kNewPC+":same-nu", "the commitments are computed over that same Nu and that same witness", okBase && okSecrets, fmt.Sprintf("bases over its Nu: %v, secrets are the witness: %v", okBase, okSecrets), P.Pos(fn.Pos()))
 				if it := mustFunc(P, R, "C11.d", "revocation.(*proofStructure).isTrue"); it != nil {
 					mp(P, R, "C11.d", FuncKey(it)+":relation", "isTrue is true only if u^alpha mod n compared equal to nu", it, AcceptTrue(0), &MustPass{Match: func(a Atom) bool {
 						x, y, ok := parseEq(a)
@@ -320,11 +369,25 @@ func refreshAgreementRule(P *Program, R *Report) {
 	}
 	if npc := P.Func(kNewPC); npc != nil {
 		ok := false
-		for _, s := range sinksOf(npc) {
-			if strings.HasSuffix(s.target, ".sacc") {
-				ok = desc(s.val) == "new:revocation.Witness.SignedAccumulator"
+		deepVisit(P, npc, 1, func(g *ssa.Function) {
+			for _, s := range sinksOf(g) {
+				if strings.HasSuffix(s.target, ".sacc") {
+					d := desc(s.val)
+					ok = false
+					for r := range witRoots {
+						if d == r+".SignedAccumulator" {
+							ok = true
+						}
+					}
+					// ... or of the per-proof copy a helper produced
+					if u, isLoad := s.val.(*ssa.UnOp); isLoad && !ok {
+						if fa, isFA := u.X.(*ssa.FieldAddr); isFA && fieldName(fa.X.Type(), fa.Field) == "SignedAccumulator" {
+							ok = witRoots[descNN(fa.X)]
+						}
+					}
+				}
 			}
-		}
+		})
 		R.decide(rule, kNewPC+":sacc", "a new commitment records the witness' signed accumulator", ok, "", P.Pos(npc.Pos()))
 	}
 	if bp := mustFunc(P, R, rule, "revocation.(*ProofCommit).BuildProof"); bp != nil {
